@@ -224,6 +224,12 @@ func init() {
 						}
 					}
 				}
+				// an accept waiting while the same id is dialled twice (the duplicate arrives after the match)
+				for _, pair := range [][2]string{{"Ap7", "Dh7"}, {"Ah7", "Dp7"}} {
+					for _, g := range []string{"", "+5000,", "+2000,"} {
+						out = append(out, explore.Params{"kind": kind, "hist": pair[0] + "," + g + pair[1] + "," + pair[1]})
+					}
+				}
 				if tier == "thorough3" {
 					for _, a := range evs {
 						for _, b := range evs {
